@@ -18,7 +18,7 @@ EXPLANATION = (
     "linearizability of the deque; moodycamel's ConcurrentQueue (third party) is not analysed.")
 ASSUMPTIONS = ["std::atomic<range>::compare_exchange_weak is atomic on the 64-bit range word", "tagged_ptr_pair::cas is a 128-bit compare-exchange"]
 THOROUGH_CONFIGS = [["-UNDEBUG", "-DPIKA_DEBUG"]]
-FLOORS = {"C17.R8": 4, "C17.R9": 20, "C17.R1": 6, "C17.R2": 2, "C17.R3": 3, "C17.R4": 12, "C17.R5": 9, "C17.R6": 1, "C17.R7": 2, "C17.R11": 2}
+FLOORS = {"C17.R8": 4, "C17.R9": 20, "C17.R1": 6, "C17.R2": 2, "C17.R3": 3, "C17.R4": 12, "C17.R5": 9, "C17.R6": 1, "C17.R7": 2, "C17.R11": 2, "C17.R12": 1}
 
 CIQ = "pika::concurrency::detail::contiguous_index_queue"
 _cache = {}
@@ -179,6 +179,10 @@ def run(rep, tier):
              "has a block and a constructed element for it; every way out that does not publish the element - no block available (return false), the element's constructor threw "
              "(rethrow) - takes the entry back with rewind_block_index_tail(). A phantom entry with a null block shifts every later look-up by one: pops return other blocks' "
              "elements, the real ones are lost, then a null block is dereferenced")
+    rep.rule("C17.R12", "K5 (vendored FIFO queue: a block has one owner): try_get_block_from_initial_pool hands out block 'index' of the pre-allocated pool only when this call "
+             "claimed that index with an atomic read-modify-write: the index is the value fetch_add returned, or the function is on the success edge of a compare-exchange "
+             "on the pool index. An index that was merely read (or refreshed by a failed exchange) is handed to two producers, which then write their elements into the same "
+             "slots: elements are lost and returned twice")
     rep.rule("C17.R6", "K8 (vendored FIFO queue, one structural clause only): when a producer's circular block index grows, the old ring is copied in logical order - the source position starts from the ring's tail and wraps around - not as a flat array (after the ring has rotated a flat copy permutes the blocks: FIFO order breaks, blocks are released early)")
     rep.rule("C17.R5", "K8: back-ends: one container operation per push/pop path; LIFO/FIFO/steal ends")
     index_queue_rules(rep, "C17.R1")
@@ -589,6 +593,39 @@ def run(rep, tier):
                             loc_of(e).rsplit("/", 1)[-1], "the element's constructor threw" if e.get("k") == "throw" else "no block"))
     if n11 < 2:
         raise AnalysisBroken("C17.R11: only %d failure exits behind insert_block_index_entry found" % n11)
+
+    # ---- R12: a pool block is claimed before it is handed out
+    IP = facts(rep, driver("c17_queues.cpp"), [r"ConcurrentQueue::try_get_block_from_initial_pool$"])
+    ip = [f for f in IP.fns if f.parent == -1 and not f.pattern and f.qname.endswith("try_get_block_from_initial_pool")]
+    if not ip:
+        raise AnalysisBroken("ConcurrentQueue::try_get_block_from_initial_pool not instantiated")
+    from engine.kinds import reaching_defs as _rd12
+    for fn in ip[:1]:
+        ff12 = FactFlow(fn)
+        rets = [(b, i, e) for b, i, e in fn.all_events() if e.get("k") == "return" and e.get("e") is not None and "initialBlockPool" in T(e["e"]) and "nullptr" != T(strip(e["e"]))]
+        if not rets:
+            raise AnalysisBroken("try_get_block_from_initial_pool: the return of a pool block was not found")
+        bad12 = None
+        for b, i, e in rets:
+            m = re.search(r"this->initialBlockPool \+ (\w+)", T(e["e"]))
+            if not m:
+                raise AnalysisBroken("try_get_block_from_initial_pool: pool block expression not recognised (%s)" % T(e["e"])[:80])
+            iv = m.group(1)
+            claimed = True
+            for d in _rd12(fn, iv, (b, i)):
+                de = fn.blocks[d[0]].events[d[1]]
+                tree = de.get("init") if de.get("k") == "decl" else de.get("rhs")
+                if tree is None or "fetch_add(" not in T(tree):
+                    claimed = False
+            fb = ff12.before.get((b, i)) or frozenset()
+            won = any(t and "initialBlockPoolIndex.compare_exchange" in a for a, t in fb)
+            if not (claimed or won):
+                bad12 = e
+        if bad12 is not None:
+            rep.bad("C17.R12", fn, loc_of(bad12), "pool-block-unclaimed", "try_get_block_from_initial_pool returns a pool block whose index was not obtained from fetch_add and not on the success edge of a "
+                    "compare-exchange on initialBlockPoolIndex: when the exchange fails the refreshed index is handed out unclaimed and the next producer claims the same block")
+        else:
+            rep.ok("C17.R12", fn, "the index of the pool block handed out is the one this call claimed (fetch_add result / successful exchange)")
 
     # ---- R6: ring growth of the vendored concurrent queue's implicit producer (the one lockfree_fifo uses)
     NB = [f for f in D.find(r"ConcurrentQueue::ImplicitProducer::new_block_index$") if not f.pattern and f.parent == -1]
